@@ -1,14 +1,20 @@
 import GrmVerif.Model.Newline
 import GrmVerif.Lemmas.Newline4
+import GrmVerif.Model.Diagnostics
+import GrmVerif.Lemmas.Diagnostics
 import GrmVerif.Drive.Util
 /-!
-Driver for C19. Request: `nchars cp… nchunks len…` (chunk lengths in characters).
+Driver for C19. Request: `nchars cp… nchunks len…` (chunk lengths in characters), optionally followed
+by three more length-prefixed lists for the error pretty-printer: the display widths of the text's
+characters `cp w …`, the strings whose width is not the sum of their characters' widths
+`k cp₁…cp_k w …` (both computed by the harness with the `unicode-width` crate that lrpar uses: this is
+the model's width parameter), and the spans to print `start stop prefixlen …`.
 Reply: two lines, `M …` computed by the *model* (transcription of the Rust code) and `S …` computed
 by the *specification* functions (`Lemmas/Newline*.lean`: `nlsFrom`, `nlBefore`, `colOf`, `lineStartOf`,
 `lineEndOf`) that the theorems of `Props/C19.lean` equate the model with.
 -/
 namespace GrmVerif.Drive.C19
-open GrmVerif.Newline GrmVerif.Drive
+open GrmVerif.Newline GrmVerif.Drive GrmVerif.Diag
 
 /-- part of `pre` after its last newline -/
 def lastLine (pre : List Char) : List Char := (pre.reverse.takeWhile (· ≠ '\n')).reverse
@@ -28,13 +34,97 @@ def fmtPair : Option (Nat × Nat) → String
   | none => "P"
   | some (a, b) => s!"{a},{b}"
 
+/-! ### error pretty-printer -/
+
+def pairsOf : List Nat → List (Nat × Nat)
+  | a :: b :: rest => (a, b) :: pairsOf rest
+  | _ => []
+
+def triplesOf : List Nat → List (Nat × Nat × Nat)
+  | a :: b :: c :: rest => (a, b, c) :: triplesOf rest
+  | _ => []
+
+/-- `k cp₁ … cp_k w` repeated -/
+def parseEx : Nat → List Nat → List (List Nat × Nat)
+  | fuel + 1, k :: rest =>
+    match rest.drop k with
+    | w :: rest' => (rest.take k, w) :: parseEx fuel rest'
+    | [] => []
+  | _, _ => []
+
+/-- the width parameter of the model, as measured by the harness on the real `unicode-width` -/
+def mkSw (cw : List (Nat × Nat)) (ex : List (List Nat × Nat)) (l : List Char) : Nat :=
+  match ex.lookup (l.map Char.toNat) with
+  | some w => w
+  | none => (l.map fun c => (cw.lookup c.toNat).getD 1).sum
+
+/-- output strings travel as code points: `P` panic, `E` empty, else `cp.cp.…` -/
+def enc : Option (List Char) → String
+  | none => "P"
+  | some [] => "E"
+  | some l => ".".intercalate (l.map fun c => toString c.toNat)
+
+def splitLastNl (x : List Char) : List Char × List Char :=
+  let pre := (x.reverse.takeWhile (· ≠ '\n')).reverse
+  (x.take (x.length - pre.length), pre)
+
+def piecesOf : List Char → List Char × List (List Char)
+  | [] => ([], [])
+  | c :: ys =>
+    let r := piecesOf ys
+    if c = '\n' then ([], r.1 :: r.2) else (c :: r.1, r.2)
+
+/-- the `Split` of a text and a span on character boundaries (glue; its result is checked by
+`splitOk` before it is used, so a mistake here shows as `X`, never as a wrong `S`) -/
+def mkSplit (s : List Char) (start stop : Nat) : Option Split :=
+  if stop < start then none
+  else
+    match takeBytes start s, dropBytes start s with
+    | some x, some t =>
+      match takeBytes (stop - start) t, dropBytes (stop - start) t with
+      | some y, some t2 =>
+        let ap := splitLastNl x
+        let cc := piecesOf y
+        some ⟨ap.1, ap.2, cc.1, cc.2, t2.takeWhile (· ≠ '\n'), t2.dropWhile (· ≠ '\n')⟩
+      | _, _ => none
+    | _, _ => none
+
+/-- `d.WF ∧ d.text = s ∧ d.start = start ∧ d.stop = stop`, decided -/
+def splitOk (d : Split) (s : List Char) (start stop : Nat) : Bool :=
+  (d.a.isEmpty || d.a.getLast? == some '\n') && !d.pre.contains '\n' && !d.c0.contains '\n'
+    && d.cs.all (fun c => !c.contains '\n') && !d.suf.contains '\n'
+    && (d.z.isEmpty || d.z.head? == some '\n')
+    && d.text == s && d.start == start && d.stop == stop
+
+def ppPath : List Char := "src.y".toList
+def ppMsg : List Char := "msg".toList
+
+/-- the model's answer for one span -/
+def ppModel (sw : List Char → Nat) (s : List Char) (sp : Nat × Nat × Nat) : String :=
+  let pfx := List.replicate sp.2.2 '.'
+  enc (fileLocationMsg s ppPath ppMsg (some sp.1)) ++ ";"
+    ++ enc (prefixedUnderline sw s pfx sp.1 sp.2.1 ppMsg '^')
+
+/-- the specification's answer: header from `colOf`, rows from `specRows`/`renderRows`
+(`pretty_header_is_line_col`, `pretty_print_spec`, `pretty_long_prefix_panics`) -/
+def ppSpec (sw : List Char → Nat) (s : List Char) (sp : Nat × Nat × Nat) : String :=
+  let pfx := List.replicate sp.2.2 '.'
+  match mkSplit s sp.1 sp.2.1 with
+  | none => "X;X"
+  | some d =>
+    if !splitOk d s sp.1 sp.2.1 then "X;X"
+    else
+      enc (some (ppMsg ++ " at ".toList ++ ppPath ++ ':' :: natStr d.firstLine
+            ++ ':' :: natStr (colOf d.pre (d.cov ++ (d.suf ++ d.z))))) ++ ";"
+        ++ (if byteLen pfx > 3 then "P" else enc (some (renderRows sw pfx ppMsg '^' d.rows)))
+
 def handle (args : List Nat) : String :=
   match takeList args with
   | none => "bad-request"
   | some (cps, rest) =>
     match takeList rest with
     | none => "bad-request"
-    | some (lens, _) =>
+    | some (lens, rest2) =>
       let s : List Char := cps.map Char.ofNat
       let chunks := splitChunks s lens
       let len := byteLen s
@@ -63,6 +153,21 @@ def handle (args : List Nat) : String :=
       let sSpans := bs.flatMap (fun (_, b1) => (bs.filter (fun (_, b2) => b1 ≤ b2)).map (fun (_, b2) =>
         s!"{lineStartOf L b1},{lineEndOf L len b2}"))
       let sp := s!"S ln {" ".intercalate sLines} lc {" ".intercalate sCols} sp {" ".intercalate sSpans}"
-      m ++ "\n" ++ sp ++ s!"\nX model-state {mCache} spec-state {sCache}"
+      -- error pretty-printer (only when the request carries spans)
+      let (mPP, sPP) :=
+        match takeList rest2 with
+        | none => ("", "")
+        | some (cwRaw, rest3) =>
+          match takeList rest3 with
+          | none => ("", "")
+          | some (exRaw, rest4) =>
+            match takeList rest4 with
+            | none => ("", "")
+            | some (spRaw, _) =>
+              let sw := mkSw (pairsOf cwRaw) (parseEx exRaw.length exRaw)
+              let spans := triplesOf spRaw
+              (" pp " ++ " ".intercalate (spans.map (ppModel sw s)),
+               " pp " ++ " ".intercalate (spans.map (ppSpec sw s)))
+      m ++ mPP ++ "\n" ++ sp ++ sPP ++ s!"\nX model-state {mCache} spec-state {sCache}"
 
 end GrmVerif.Drive.C19
